@@ -7,4 +7,5 @@ func init() {
 	children["c08perm"] = c08.ChildPerm
 	children["c08die"] = c08.ChildDie
 	children["c08limit"] = c08.ChildLimit
+	children["c08foreign"] = c08.ChildForeign
 }
